@@ -38,7 +38,7 @@ def run(snap, tier, seed, t0, replay):
         d = os.path.join(snap.root, "genconf_replay")
         confgen.emit(params, d)
         res = run_one(snap, "c20", {"sub": case["sub"], "sub_args": {"replay": case, "seed": seed}, "params": params},
-                      snap.env(conf_first=d), 1800)
+                      snap.env(conf_first=d, hashseed=case.get("_hashseed", 0)), 1800)
         m = harness.merge([res])
         return harness.finish("C20", tier, seed, LEVEL, m, RULE, t0, ASSUME, replay_mode=True)
     rng = random.Random(seed * 7919 + 13)
